@@ -76,7 +76,14 @@ TGen ==
         ELSE IF e.schemaTs.k # "ok" \/ e.opTs[1].k # "ok" THEN Report(e, {Item("declaration-unreadable", "a declaration file is missing or not well-formed", [schema |-> e.schemaTs.k, op |-> e.opTs[1].k])})
         ELSE LET env == [schema |-> e.schemaTs.stmts, local |-> e.opTs[1].stmts, schemaNs |-> e.opTs[1].schemaNs]
                  its == UNION {DefItems(S, cfg, env, frs, defs[i], TypeNameOf(e, i)) : i \in DOMAIN defs}
-                 real == {it \in its : it.cls \notin {"$ok", "$discard"}}
+                 clash == ClashNames(e.opTs[1].stmts)
+                 fragNames == {defs[i].name : i \in {j \in DOMAIN defs : defs[j].k = "frag"}}
+                 (* a module with a clash has no usable types: membership is not judged on it.  A clash on an identifier that IS the name the *)
+                 (* document gave a fragment (the fragment's type and constant are exported under that very name) is classed separately.      *)
+                 real == IF clash = {} THEN {it \in its : it.cls \notin {"$ok", "$discard"}}
+                         ELSE {Item(IF clash \subseteq fragNames THEN "identifier-clash-fragment-name" ELSE "identifier-clash",
+                                    "one identifier is declared twice (or imported and declared) in the operation declaration file: TypeScript rejects the module",
+                                    [names |-> clash])}
              IN /\ Report(e, real)
                 /\ Stat([l |-> l, id |-> e.id, ok |-> Cardinality({it \in its : it.cls = "$ok"}), beyond |-> Cardinality({it \in its : it.cls = "$discard"}),
                          sizes |-> {it.more.size : it \in {x \in its : x.cls \in {"$ok", "$discard"}}}, preludeOk |-> e.preludeOk])
